@@ -18,7 +18,7 @@ _DESCS = None
 
 def tier_params(tier):
     if tier == "thorough":
-        return {"n_per_profile": 8, "nv": 24, "nb": 300, "valgrind": 40}
+        return {"n_per_profile": 5, "nv": 24, "nb": 300, "valgrind": 24}
     return {"n_per_profile": 2, "nv": 8, "nb": 100, "valgrind": 0}
 
 
